@@ -388,7 +388,31 @@ func visitInstr(fr *frame, instr ssa.Instruction) continuation {
 		*addr = zero(deref(instr.Type()))
 
 	case *ssa.MakeSlice:
-		c := i.concreteInt(fr.get(instr.Cap), "make([]T) capacity")
+		capV := fr.get(instr.Cap)
+		if sc, ok := capV.(*Sym); ok {
+			// symbolic capacity: out of range (negative, or more than the address
+			// space can hold) panics like the runtime's makeslice; otherwise the
+			// capacity is not observable apart from cap(), so the slice gets the
+			// capacity of its (concretised) length
+			pl := i.ps.pool
+			w := pl.Resize(sc.t, kindSigned(sc.k), 64)
+			inRange := pl.And(pl.CmpBV("bvsle", pl.BV(64, 0), w), pl.CmpBV("bvsle", w, pl.BV(64, 1<<44)))
+			if !i.ps.branch(inRange) {
+				panic(targetPanic{v: i.runtimeErr("makeslice: cap out of range")})
+			}
+			i.stubs["make([]T, len, <symbolic cap>): capacity taken as len"]++
+			capV = fr.get(instr.Len)
+			if sl, ok := capV.(*Sym); ok {
+				// len <= cap must hold as well
+				wl := pl.Resize(sl.t, kindSigned(sl.k), 64)
+				if !i.ps.branch(pl.And(pl.CmpBV("bvsle", pl.BV(64, 0), wl), pl.CmpBV("bvsle", wl, w))) {
+					panic(targetPanic{v: i.runtimeErr("makeslice: len out of range")})
+				}
+			} else if asInt64(capV) < 0 {
+				panic(targetPanic{v: i.runtimeErr("makeslice: len out of range")})
+			}
+		}
+		c := i.concreteInt(capV, "make([]T) capacity")
 		l := i.concreteInt(fr.get(instr.Len), "make([]T) length")
 		if l < 0 || c < l || c > 1<<26 {
 			panic(targetPanic{v: i.runtimeErr("makeslice: len out of range")})
